@@ -60,6 +60,8 @@ def _linear(e, defs):
         return {"1": e.value} if e.value else {}
     if isinstance(e, (ast.Name, ast.Attribute, ast.Subscript)):
         return {unparse(e): 1}
+    if isinstance(e, ast.Call) and isinstance(e.func, ast.Name) and e.func.id == "len" and len(e.args) == 1 and not e.keywords:
+        return {unparse(e): 1}
     return None
 
 
